@@ -50,6 +50,21 @@ func c10Emit(ctx context.Context, kind string, seq int, pad string) (string, err
 		want := map[string]interface{}{"seq": seq, "_meta": map[string]interface{}{"k": tag}}
 		err := ns.SendCustomNotification("notifications/custom", map[string]interface{}{"seq": seq, "_meta": map[string]interface{}{"k": tag}})
 		return hx.CanonOf(want), err
+	case "meta-typed": // _meta given as the library's own Meta type
+		err := ns.SendCustomNotification("notifications/custom", map[string]interface{}{"seq": seq, "_meta": mcp.Meta{"k": tag, "n": 1}})
+		return hx.CanonOf(map[string]interface{}{"seq": seq, "_meta": map[string]interface{}{"k": tag, "n": 1}}), err
+	case "meta-strmap": // _meta given as another map type that encodes as a JSON object
+		err := ns.SendCustomNotification("notifications/custom", map[string]interface{}{"seq": seq, "_meta": map[string]string{"k": tag}})
+		return hx.CanonOf(map[string]interface{}{"seq": seq, "_meta": map[string]interface{}{"k": tag}}), err
+	case "meta-struct": // _meta given as a struct
+		err := ns.SendCustomNotification("notifications/custom", map[string]interface{}{"seq": seq, "_meta": struct {
+			K string `json:"k"`
+			P *int   `json:"p,omitempty"`
+		}{K: tag}})
+		return hx.CanonOf(map[string]interface{}{"seq": seq, "_meta": map[string]interface{}{"k": tag}}), err
+	case "params-typed": // parameter values of non-generic Go types
+		err := ns.SendCustomNotification("notifications/custom", map[string]interface{}{"seq": seq, "ids": []int{1, 2}, "m": map[string][]string{"a": {tag}}, "f": float32(0.5)})
+		return hx.CanonOf(map[string]interface{}{"seq": seq, "ids": []interface{}{1, 2}, "m": map[string]interface{}{"a": []interface{}{tag}}, "f": 0.5}), err
 	default: // both
 		want := map[string]interface{}{"seq": seq, "a": tag, "_meta": map[string]interface{}{"k": "v"}, "nested": map[string]interface{}{"_meta": "inner"}}
 		err := ns.SendCustomNotification("notifications/custom", map[string]interface{}{"seq": seq, "a": tag, "_meta": map[string]interface{}{"k": "v"}, "nested": map[string]interface{}{"_meta": "inner"}})
@@ -98,6 +113,12 @@ func c10Cases(tier string) []c10Case {
 		}
 		for _, k := range c10Kinds {
 			out = append(out, c10Case{mode, []string{k}, 7, 65537}, c10Case{mode, []string{k, k}, 7, 65537})
+		}
+		// parameter / _meta values of other Go types that encode to the same JSON
+		for _, k := range []string{"meta-typed", "meta-strmap", "meta-struct", "params-typed"} {
+			for _, reg := range []int{0, 4, 7} {
+				out = append(out, c10Case{mode, []string{k}, reg, 0}, c10Case{mode, []string{"progress", k, "meta"}, reg, 0})
+			}
 		}
 	}
 	return out
@@ -239,7 +260,7 @@ func c10Eval(tier string, i int) CaseResult {
 }
 
 func init() {
-	RegisterEnum(&Enum{Name: "c10/sequences", Doc: "all notification sequences up to length 3 (4 thorough) over {progress, log, custom, custom+_meta, custom+both} x registered-handler subsets x response mode {SSE, JSON, stateless SSE} x payload size",
+	RegisterEnum(&Enum{Name: "c10/sequences", Doc: "all notification sequences up to length 3 (4 thorough) over {progress, log, custom, custom+_meta, custom+both; plus _meta/params given as mcp.Meta, map[string]string, struct, typed slices} x registered-handler subsets x response mode {SSE, JSON, stateless SSE} x payload size",
 		Count: func(tier string) int { return len(c10Cases(tier)) }, Eval: c10Eval})
 	RegisterScenario(&Scenario{Name: "c10/clock", Doc: "one call emitting three notifications; between any two event-id generations the millisecond clock ticks or not (environment deviations)",
 		Run: func(p []int, m []vsched.ChoicePoint) explore.Outcome {
